@@ -42,6 +42,7 @@ var opSrc = []string{"$x | $y", "$x/a", "$x[1]", "$x//a", "-$x", "$x = $y", "$x 
 var doc xsel.Cursor
 
 func Setup() {
+	setupAxes()
 	doc, _ = hx.Build([]hx.Event{{N: hx.Elem{Name: "r"}}, {N: hx.Attr{Name: "a", Val: "v"}}, {N: hx.Elem{Name: "a"}}, {N: hx.Text{Val: "1"}}, {End: true}, {End: true}})
 }
 
@@ -253,4 +254,36 @@ func RunMaxMinLemma() {
 	nd.Reach("max-min-lemma")
 	nd.Assert(nd.SameF64(math.Max(x, y), goMax(x, y)), "lemma.math.Max")
 	nd.Assert(nd.SameF64(math.Min(x, y), goMin(x, y)), "lemma.math.Min")
+}
+
+var axisQueries []*xsel.Grammar
+var axisSrc []string
+
+func setupAxes() {
+	axisQueries, axisSrc = nil, nil
+	for _, ax := range []string{"ancestor", "ancestor-or-self", "attribute", "child", "descendant", "descendant-or-self", "following",
+		"following-sibling", "namespace", "parent", "preceding", "preceding-sibling", "self"} {
+		for _, s := range []string{ax + "::node()", ax + "::*[1]", ax + "::node()/" + "following-sibling::node()", "count(" + ax + "::node()/preceding-sibling::*)"} {
+			g := xsel.MustBuildExpr(s)
+			axisQueries = append(axisQueries, &g)
+			axisSrc = append(axisSrc, s)
+		}
+	}
+}
+
+// RunAxesNoPanic: every axis (alone, with a positional predicate, followed by
+// the sibling axes) from every node of every kind of every small document -
+// also attribute and namespace nodes of childless elements - is a well-typed
+// query: a value, never an error or an 'xpath query panic'.
+func RunAxesNoPanic() {
+	b := hx.Gen(hx.GenOpts{MaxEvents: 4, MaxDepth: 2, Attrs: 1, NS: 1, Other: true, TopLevel: true})
+	nd.Assert(b.TieOK, "store-mirrors-script")
+	ctx := b.Cursors[nd.Choice(len(b.Doc.Nodes))]
+	nd.Reach("axes")
+	for k, g := range axisQueries {
+		r, err := xsel.Exec(ctx, g)
+		nd.Assert(r != nil || err != nil, "axes.no-nil-nil")
+		nd.Assert(!isPanicErr(err), "axes.no-internal-panic:"+axisSrc[k])
+		nd.Assert(err == nil, "axes.no-error:"+axisSrc[k])
+	}
 }
